@@ -147,7 +147,7 @@ def custom_stage(pid, tier, seed, V, log):
 PROP = dict(
     modules=["CG.Props.C09"],
     required_theorems=["C09_b58_roundtrip", "C09_b58_injective", "C09_b58_string_injective", "C09_crate_roundtrip",
-                       "C09_roundtrip_chk", "C09_roundtrip_addr", "C09_roundtrip_wif", "C09_roundtrip_xkey",
+                       "C09_roundtrip_chk", "C09_roundtrip_addr", "C09_addr_encode_injective", "C09_roundtrip_wif", "C09_roundtrip_xkey",
                        "C09_roundtrip_xkey_network_type", "C09_roundtrip_pubkey_address", "C09_accept_needs_checksum",
                        "C09_corruption_changes_payload", "C09_single_edit_rejected_partial", "C09_short_rejected",
                        "C09_short_string_rejected", "C09_wrong_prefix_rejected", "C09_prefix_classes_disjoint",
